@@ -587,6 +587,8 @@ class Mini:
             return ("struct", n[1], {k: self.ev(v, env) for k, v in n[2]})
         if t == "field":
             b = self.ev(n[1], env)
+            if isinstance(b, Ref):
+                b = b.get()
             if isinstance(b, tuple) and b and b[0] == "struct":
                 if n[2] not in b[2]:
                     raise Unsupported(f"field {n[2]} of {b[1]} not modelled")
@@ -755,6 +757,8 @@ class Mini:
                 return
         if t == "field":
             b = self.ev(target[1], env)
+            if isinstance(b, Ref):
+                b = b.get()
             if isinstance(b, tuple) and b and b[0] == "struct":
                 b[2][target[2]] = v
                 return
@@ -976,6 +980,24 @@ class Mini:
         if p.startswith("std::slice::<impl [T]>::"):
             if nm == "len":
                 return len(recv)
+            if nm == "to_vec" and isinstance(recv, list):
+                import copy
+                return copy.deepcopy(recv)
+            if nm == "binary_search_by_key" and isinstance(recv, list):
+                keys = [self.apply(args[1], [x]) for x in recv]
+                want = args[0]
+                if not all(isinstance(k, int) for k in keys) or not isinstance(want, int):
+                    raise Unsupported("binary search over abstract keys")
+                lo, hi = 0, len(keys)  # std's contract: any match when sorted; unspecified otherwise - follow the usual bisection
+                while lo < hi:
+                    mid = (lo + hi) // 2
+                    if keys[mid] == want:
+                        return ("Ok", mid)
+                    if keys[mid] < want:
+                        lo = mid + 1
+                    else:
+                        hi = mid
+                return ("Err", lo)
             if nm == "iter":
                 return Iter(list(recv))
             if nm == "is_empty":
@@ -1180,6 +1202,13 @@ class Mini:
             return "None"
         if p == "std::iter::traits::iterator::Iterator::collect":
             return list(self.iterate(recv))
+        if p == "std::iter::traits::iterator::Iterator::position":
+            for i, x in enumerate(self.iterate(recv)):
+                if self.truth(self.apply(args[0], [x])):
+                    return ("Some", i)
+            return "None"
+        if p == "std::result::Result::<T, E>::ok":
+            return ("Some", recv[1]) if isinstance(recv, tuple) and recv[0] == "Ok" else "None"
         if p == "std::iter::traits::iterator::Iterator::count":
             return len(self.iterate(recv))
         if p.startswith("std::slice::<impl [T]>::") and nm in ("sort_unstable", "sort") and isinstance(recv, list):
